@@ -3,7 +3,14 @@ package main
 // SplitMix64: every random choice of the harness derives from one state seeded by VERIF_SEED.
 type Rand struct{ s uint64 }
 
-func NewRand(seed uint64) *Rand { return &Rand{s: seed*0x9E3779B97F4A7C15 + 0x1234567} }
+func NewRand(seed uint64) *Rand {
+	// the start state is a MIXED function of the seed: with a start state that is linear in the seed
+	// (seed*gamma + c) the stream of seed s+k is the stream of seed s shifted by k steps, i.e. different
+	// seeds generate the same cases
+	r := &Rand{s: seed*0x9E3779B97F4A7C15 + 0x1234567}
+	r.s = r.U64()
+	return r
+}
 
 func (r *Rand) U64() uint64 {
 	r.s += 0x9E3779B97F4A7C15
